@@ -37,6 +37,11 @@ def check(run):
         for L in range(1, (5 if run.tier == 'thorough' else 4) + 1):
             go(f'parse T1 from root, prefix {pre!r} + {L} symbolic bytes', {'device': 'T1', 'L': L, 'prefix': pre}, pl['per'])
             complete_bounds['T1/root/prefix ' + pre] = L
+    # inside payloads and length fields, with the completion family on incomplete and on rejected newline-terminated inputs
+    for pre in ('K #1', 'K #2', 'K #21', 'S "a', "S 'a", 'A:K #1'):
+        for L in range(1, (4 if run.tier == 'thorough' else 3) + 1):
+            go(f'parse T1 from root, prefix {pre!r} + {L} symbolic bytes, completions', {'device': 'T1', 'L': L, 'prefix': pre, 'completions': True}, pl['per'])
+            complete_bounds['T1/root/prefix ' + pre] = L
     for start in (['A'], ['A', 'X']):
         for L in range(1, pl['other_L'] + 1):
             go(f'parse T1 from {"/".join(start)}, L={L}', {'device': 'T1', 'start': start, 'L': L}, pl['per'])
